@@ -254,7 +254,7 @@ def run_check(pid, tier, seed, jobs=None, replay=None, only=None):
     check = load_check(pid)
     env = worker_env()
     jobs = jobs or int(os.environ.get("PVMON_JOBS", "16"))
-    evid_path = os.path.join(VERIF, "evidence", pid + ".json")
+    evid_path = os.path.join(os.environ.get("PVMON_EVIDENCE_DIR", os.path.join(VERIF, "evidence")), pid + ".json")
     os.makedirs(os.path.dirname(evid_path), exist_ok=True)
 
     if replay:
